@@ -53,3 +53,34 @@ example : (let s := runOps St.init [.fsCreate 0 0 true, .evCreated .ready [] [0]
             alookup 0 (pstep s (.termmv 0)).running)) = (some ⟨0, 0⟩, 1, none) := by decide
 
 end TmVerif.AppCfg
+
+namespace TmVerif.AppCfg
+
+theorem hasCont_mkapp_mono (c d : CId) (apps : List Cont) (h : hasCont d apps = true) :
+    hasCont d (if hasCont c apps then apps else apps ++ [{ id := c }]) = true := by
+  split
+  · exact h
+  · unfold hasCont getCont at h ⊢
+    rw [List.find?_append]
+    cases hf : List.find? (fun x => decide (x.id = d)) apps with
+    | none => rw [hf] at h; simp at h
+    | some x => simp
+
+/-- **A kill right after `configure()` created the container directory** (before the running link exists): the links
+    are untouched and every link target still exists, so the invariant holds - the new container is referenced by
+    nothing yet. -/
+theorem inv_mkapp {s : St} (h : Inv s) (c : CId) : Inv (pstep s (.mkapp c)) := by
+  refine ⟨fun i => ?_, h.runKeys, h.clnKeys⟩
+  have hi := h.slice i
+  exact ⟨fun d hd => ⟨(hi.runTgt d hd).1, hasCont_mkapp_mono c d s.apps (hi.runTgt d hd).2⟩,
+         fun d hd => ⟨(hi.clnITgt d hd).1, hasCont_mkapp_mono c d s.apps (hi.clnITgt d hd).2⟩,
+         fun g d hd => ⟨(hi.clnCTgt g d hd).1, hasCont_mkapp_mono c d s.apps (hi.clnCTgt g d hd).2⟩,
+         hi.single⟩
+
+/-- **C13 at the first crash point of `_configure`**: container directory made, no link yet - at most one link per
+    container, and none to the new one if it is new. -/
+theorem C13_crash_configure_single_ref {s : St} (h : Inv s) (c d : CId) :
+    refs (pstep s (.mkapp c)) d ≤ 1 ∧ refs (pstep s (.mkapp c)) c = refs s c :=
+  ⟨(inv_mkapp h c).refs_le_one d, rfl⟩
+
+end TmVerif.AppCfg
